@@ -73,6 +73,12 @@ Definition s_parse_line (line0 : text) (s : sstate) : res * sstate :=
 Definition s_pairs (s : sstate) : list (text * text) := pairs_of (s_map s).
 Definition s_string (s : sstate) : text := flat_map line_of (s_pairs s).
 
+(* the combined view: one (name, comma-joined values) pair per key, in key order *)
+Definition s_items (s : sstate) : list (text * text) :=
+  map (fun kv => (fst kv, join [c_comma] (snd kv))) (s_map s).
+Definition s_update (l : list (text * text)) (s : sstate) : sstate :=
+  fold_left (fun s kv => mkS (ms_replace (normalize (fst kv)) [snd kv] (s_map s)) (s_last s)) l s.
+
 Definition s_step (o : op) (s : sstate) : res * sstate :=
   match o with
   | Add n v => s_add n v s
@@ -90,6 +96,18 @@ Definition s_step (o : op) (s : sstate) : res * sstate :=
   | GetAll => (RPairs (s_pairs s), s)
   | ParseLine l => s_parse_line l s
   | ToString => (RText (s_string s), s)
+  | GetD n => (match ms_find (normalize n) (s_map s) with Some vs => RText (join [c_comma] vs) | None => RUnit end, s)
+  | Pop n => match ms_find (normalize n) (s_map s) with
+             | Some vs => (RText (join [c_comma] vs), mkS (ms_remove (normalize n) (s_map s)) (s_last s))
+             | None => (RErr EKey, s)
+             end
+  | SetDefault n v => match ms_find (normalize n) (s_map s) with
+                      | Some vs => (RText (join [c_comma] vs), s)
+                      | None => (RText v, mkS (ms_replace (normalize n) [v] (s_map s)) (s_last s))
+                      end
+  | Items => (RPairs (s_items s), s)
+  | Len => (RNat (length (s_map s)), s)
+  | Update l => (RUnit, s_update l s)
   end.
 
 Fixpoint s_fold (f : text -> sstate -> res * sstate) (ls : list text) (s : sstate) : res * sstate :=
@@ -114,8 +132,13 @@ Definition s_copy (s : sstate) : res * sstate :=
 (* h[n] = v is the one write that validates nothing; a program is "validated" when
    every such write uses a token name and a field-value *)
 Definition valid_op (o : op) : bool :=
-  match o with SetItem n v => is_token n && is_field_value v | _ => true end.
-Definition valid_cmd (c : cmd) : bool := match c with On _ o => valid_op o | _ => true end.
+  match o with
+  | SetItem n v | SetDefault n v => is_token n && is_field_value v
+  | Update l => forallb pair_valid l
+  | _ => true
+  end.
+Definition valid_cmd (c : cmd) : bool :=
+  match c with On _ o => valid_op o | FromPairs l => forallb pair_valid l | _ => true end.
 
 (* ---------- programs ---------- *)
 Definition s_new (st : list sstate) (r : res * sstate) : res * list sstate :=
@@ -138,6 +161,11 @@ Definition s_run_cmd (c : cmd) (st : list sstate) : res * list sstate :=
                  | None => (RBadTarget, st)
                  | Some s => s_new st (s_parse (s_string s))
                  end
+  | FromPairs l => s_new st (RUnit, s_update l empty_s)
+  | Eq i j => match nth_error st i, nth_error st j with
+              | Some a, Some b => (RBool (dict_eqb (s_items a) (s_items b)), st)
+              | _, _ => (RBadTarget, st)
+              end
   end.
 Fixpoint s_run_cmds (cs : list cmd) (st : list sstate) : list res * list sstate :=
   match cs with
